@@ -84,7 +84,7 @@ a ( o , i ) = b ( 1 , 0 ) ;
 for ( int o = 0 ; o < 4 ; ++ o ; @ outer ) {
 for ( int i = 0 ; i < 4 ; ++ i ; @ inner ) {
 @ atomic a [ 0 ] += i ;
-@ atomic { a [ 1 ] = a [ 1 ] + 1 ; }
+@ atomic a [ 1 ] ++ ;
 }
 }
 }"""),
@@ -148,15 +148,15 @@ a [ i ] = i ;
 }"""),
     ("preprocessor", """
 # if defined ( OCCA_USING_GPU ) && ! defined ( Q )
-# define S ( x ) ( x + 1 )
+# define S( x ) ( x + 1 )
 # else
-# define S ( x ) x
+# define S( x ) x
 # endif
-# pragma occa attributes @ dummy
 @ kernel void k ( int * a ) {
-for ( int o = 0 ; o < S ( 3 ) ; ++ o ; @ outer ) {
+# pragma occa attributes @ outer
+for ( int o = 0 ; o < S ( 3 ) ; ++ o ) {
 for ( int i = 0 ; i < 2 ; ++ i ; @ inner ) {
-a [ i ] = sizeof ( int ) + __LINE__ ;
+a [ i ] = __LINE__ + sizeof ( int ) ;
 }
 }
 }"""),
@@ -177,6 +177,16 @@ end : a [ i ] = 'c' ;
 }
 }"""),
 ]
+
+# a 13th seed that only the host translators accept (CUDA/HIP reject general @atomic blocks with an error)
+SEEDS.append(("atomic-block", """
+@ kernel void k ( int * a ) {
+for ( int o = 0 ; o < 4 ; ++ o ; @ outer ) {
+for ( int i = 0 ; i < 4 ; ++ i ; @ inner ) {
+@ atomic { a [ 1 ] = a [ 1 ] + 1 ; }
+}
+}
+}"""))
 
 # replacement alphabet (one representative per lexical / syntactic role)
 ALPHABET = ["(", ")", "{", "}", "[", "]", "@", ";", ",", "#", ":", "=", "<", "++", "*", ".",
